@@ -22,7 +22,7 @@ func init() {
 				Run: func(c *Ctx, r *R) { ruleWgCount(c, r, "stream.BatchFunc") }},
 			{ID: "C11.delivery", Floor: 7, Clause: "producer defers close(c); batcher's deferred closure closes batchC on every exit; out.err is written only by the producer, only with the source's own error, and dropped only under the self-cancellation test; read only after batchC was seen closed; both !ok blocks of Next return err if non-nil else End; the consumer announces on waiting before its second-level wait",
 				Run: ruleBatchDelivery},
-			{ID: "C11.batch-timer", Floor: 3, Clause: "inductive 2-bit invariant over the batcher loop (E = batch possibly empty, T = timer possibly armed): no send on batchC is reachable with E; Batch's predicate is len(batch) >= batchSize evaluated after every append",
+			{ID: "C11.batch-timer", Floor: 4, Clause: "inductive 2-bit invariant over the batcher loop (E = batch possibly empty, T = timer possibly armed): no send on batchC is reachable with E; Batch's predicate is len(batch) >= batchSize evaluated after every append",
 				Run: ruleBatchTimer},
 			{ID: "C11.elapsed-direction", Floor: 3, Clause: "the immediate flush in the waiting arm is on the edge where time.Since(batchStart) exceeds maxWait, the other edge arms the timer; timer durations are maxWait - time.Since(batchStart)",
 				Run: ruleBatchElapsed},
@@ -147,7 +147,7 @@ func ruleBatchTimer(c *Ctx, r *R) {
 	for _, h := range cellHelpers(timerCCell.cell) {
 		helperOfCell[h] = true // methods of a local timer-struct variable
 	}
-	pf := &PF{N: 16, InScope: func(f *ssa.Function) bool { return (rootFn(f) == root && f != root) || helperOfCell[f] }}
+	pf := &PF{N: 32, InScope: func(f *ssa.Function) bool { return (rootFn(f) == root && f != root) || helperOfCell[f] }}
 	pf.Instr = func(fn *ssa.Function, in ssa.Instruction, q int) (StateSet, bool) {
 		if q == ERR {
 			return ss(ERR), true
@@ -158,7 +158,7 @@ func ruleBatchTimer(c *Ctx, r *R) {
 			if cell == batchCell {
 				if call, ok := x.Val.(*ssa.Call); ok {
 					if b, ok := call.Call.Value.(*ssa.Builtin); ok && b.Name() == "append" {
-						return ss(q &^ 1), true // definitely non-empty (append of >= 1 element)
+						return ss(q &^ 1 &^ 16), true // definitely non-empty (append of >= 1 element), not yet offered
 					}
 				}
 				return ss(q | 1), true
@@ -175,11 +175,14 @@ func ruleBatchTimer(c *Ctx, r *R) {
 					if q&1 != 0 {
 						return ss(ERR), true
 					}
+					return ss(q | 16), true // bit 16 = the pending batch has been offered to the consumer (flush attempted)
 				}
 			}
 		case *ssa.Call:
 			if sc, _ := batchSendCall(x); sc != nil && q&1 != 0 {
 				return ss(ERR), true
+			} else if sc != nil {
+				return ss(q | 16), true
 			}
 			// bit 8 = the timer has been armed (NewTimer / Reset) and not stopped since
 			if cal := x.Call.StaticCallee(); cal != nil && cal.Pkg != nil && cal.Pkg.Pkg.Path() == "time" {
@@ -293,10 +296,26 @@ func ruleBatchTimer(c *Ctx, r *R) {
 	}
 	exits := pf.Exits(batcher, ss(1))
 	errReach := false
+	dropped := false
+	var droppedAt *ssa.Return
 	for _, e := range exits {
 		if e.States.has(ERR) {
 			errReach = true
 		}
+		// the batcher leaves with items in hand that were never offered to the consumer
+		e.States.each(func(q int) {
+			if q != ERR && q&1 == 0 && q&16 == 0 {
+				dropped = true
+				droppedAt = e.Ret
+			}
+		})
+	}
+	{
+		pos := batcher.Pos()
+		if droppedAt != nil {
+			pos = retPos(droppedAt)
+		}
+		r.ok(!dropped, "stream.BatchFunc|no-items-dropped-at-exit", pos, "the batcher can return while it definitely holds items that it has not offered to the consumer since they arrived (e.g. the trailing partial batch when the source failed): items the source yielded before its end or error are lost")
 	}
 	if nWaits > 0 {
 		r.ok(!armedUnwatched, "stream.BatchFunc|armed-timer-watched", unwatchedAt, "the batcher can wait in its select with the timer armed (NewTimer / Reset) while the timer-channel variable of the select is nil: the expiry is never seen, an underfilled batch is held back from a waiting consumer until the batch fills or the source ends")
@@ -1065,3 +1084,65 @@ func sameMadeChan(a, b ssa.Value) bool {
 	}
 	return false
 }
+
+// C11.batch-age-from-first-item: maxWait is measured from the moment the OLDEST item of the pending batch arrived: the time
+// stamp the elapsed-time tests read is set to time.Now() exactly where the batch gets its first item (under len(batch) == 1
+// after the append), not when the previous batch was handed over or the goroutine started - otherwise a batch that follows an
+// idle period counts as expired as soon as its first item arrives and is handed out underfilled at once.
+var _ = late(func() {
+	p := properties["C11"]
+	p.Rules = append(p.Rules, &Rule{ID: "C11.batch-age-from-first-item", Floor: 1, Clause: "the time stamp that time.Since(...) is applied to in the batcher (batchStart) is assigned time.Now() only under len(batch) == 1, i.e. when the pending batch receives its first item: stamping it at hand-over or start-up ages a batch by the idle time that preceded it",
+		Run: func(c *Ctx, r *R) {
+			batcher, _, bi := batchClosures(c)
+			if batcher == nil {
+				r.undecided("stream.BatchFunc|batcher", token.NoPos, "batcher goroutine not found")
+				return
+			}
+			// the stamp: the variable handed to time.Since
+			var stamp lvar
+			for _, g := range bi.all {
+				instrs(g, func(_ *ssa.BasicBlock, _ int, in ssa.Instruction) {
+					call, ok := in.(*ssa.Call)
+					if !ok {
+						return
+					}
+					if cal := call.Call.StaticCallee(); cal != nil && cal.Name() == "Since" && cal.Pkg != nil && cal.Pkg.Pkg.Path() == "time" {
+						if lv := loadVar(call.Call.Args[0]); lv.ok() {
+							stamp = lv
+						}
+					}
+				})
+			}
+			if !stamp.ok() {
+				r.undecided("stream.BatchFunc|batch-start", batcher.Pos(), "the variable time.Since is applied to was not found")
+				return
+			}
+			n := 0
+			for _, st := range storesToVar(stamp) {
+				call, ok := st.Val.(*ssa.Call)
+				if !ok {
+					continue // the zero value at declaration
+				}
+				if cal := call.Call.StaticCallee(); cal == nil || cal.Name() != "Now" {
+					continue
+				}
+				n++
+				first := false
+				for _, g := range guardsOf(st.Block()) {
+					cf, ok := g.asCmp()
+					if !ok || cf.op != token.EQL || !isConstInt(cf.y, 1) {
+						continue
+					}
+					if lc, ok := resolveVal(cf.x).(*ssa.Call); ok {
+						if bi, ok := lc.Call.Value.(*ssa.Builtin); ok && bi.Name() == "len" {
+							first = true
+						}
+					}
+				}
+				r.ok(first, "stream.BatchFunc|stamp#"+itoa(n), st.Pos(), "the batch's age is stamped here, outside the `len(batch) == 1` test that marks the arrival of its first item: the next batch inherits the idle time before it and is released underfilled immediately")
+			}
+			if n == 0 {
+				r.violated("stream.BatchFunc|stamp", batcher.Pos(), "the batch's start time is never set to time.Now()")
+			}
+		}})
+})
